@@ -257,3 +257,12 @@ func Run(h func()) (verdict string) {
 	h()
 	return
 }
+
+// Override redirects calls of the named function to fn inside the engine. A
+// native replay cannot do that: harnesses that use it go through the
+// repository's own test seams instead (see each harness).
+func Override(name string, fn any) {}
+
+// Execs returns the program paths passed to os/exec.Command on this path
+// (engine only).
+func Execs() []string { return nil }
